@@ -110,11 +110,13 @@ Fixpoint tp_cal_first_bad (ranges : list (tp_dayrange * list (Z * Z))) (prefer :
       else tp_cal_first_bad ranges prefer incs excs b' e d0 r
   end.
 
-Definition tp_cal_step_ok (allr ranges : list (tp_dayrange * list (Z * Z))) (prefer : bool)
+Definition tp_cal_step_ok (ma : bool) (allr ranges : list (tp_dayrange * list (Z * Z))) (prefer : bool)
            (incs excs : list (list tp_seg)) (b e : Z) (clear : bool) (probes : list Z)
            (pre post : tp_st) (ins : list bool) : option (Z * tp_cls) :=
   if negb (tp_ins_ok post probes ins) then Some (0, TpClsIsInside)
-  else if negb clear && (e <? tp_ve_num pre) then (if tp_st_eqb pre post then None else Some (0, TpClsWindow))
+  else if negb clear && (e <? tp_ve_num pre) then
+    (* no stretch of the period's own to compute: nothing changes / the referenced periods are merged below valid_end *)
+    (if tp_noop_ok ma probes (TpOpUpdate [] prefer incs excs b e clear) pre post then None else Some (0, TpClsWindow))
   else
     let b' := tp_upd_begin b clear pre in
     if negb (tp_covers_b post b' e) then Some (0, TpClsWindow)
